@@ -947,6 +947,7 @@ func checkFetcherMapping(c *core.Ctx) {
 	c.Floor("tmpl.map", 30)
 	checkLoopPointerAlias(c, c.Prog.ModuleFuncs("snippet"))
 	checkFetcherFilters(c)
+	checkOptionalPlanFields(c)
 	checkStaleSliceCopies(c)
 }
 
@@ -1518,4 +1519,64 @@ func byteLoopRaw(fn *ssa.Function) (raw [256]bool, ok bool) {
 		return raw, false
 	}
 	return raw, true
+}
+
+// checkOptionalPlanFields (tmpl.optptr): the records a Terraform plan or the API is decoded into keep optional
+// attributes as pointers (`Retries *int`): absent in the JSON, nil in the record. Every dereference of such a field in
+// the resource readers is dominated by a non-nil test of the very value - otherwise a plan without the attribute
+// crashes falco instead of producing VCL.
+func checkOptionalPlanFields(c *core.Ctx) {
+	for _, fn := range c.Prog.ModuleFuncs("snippet") {
+		ord := map[string]int{}
+		for _, b := range fn.Blocks {
+			for _, in := range b.Instrs {
+				ld, ok := in.(*ssa.UnOp)
+				if !ok || ld.Op != token.MUL {
+					continue
+				}
+				// *p where p = *(&rec.Field) and Field is a pointer to a basic type
+				pl, ok := ld.X.(*ssa.UnOp)
+				if !ok || pl.Op != token.MUL {
+					continue
+				}
+				f := core.FieldOf(pl.X)
+				if f == nil || !strings.HasPrefix(core.FieldOwner(pl.X), core.ModPath+"/snippet") {
+					continue
+				}
+				pt, isPtr := f.Type().Underlying().(*types.Pointer)
+				if !isPtr {
+					continue
+				}
+				if _, isBasic := pt.Elem().Underlying().(*types.Basic); !isBasic {
+					continue
+				}
+				name := core.FieldOwner(pl.X)[strings.LastIndex(core.FieldOwner(pl.X), ".")+1:] + "." + f.Name()
+				ord[name]++
+				key := fmt.Sprintf("%s|%s#%d", core.FnName(fn), name, ord[name])
+				guarded := core.DominatedByNil(pl, b, false)
+				if !guarded {
+					// the test may have loaded the field separately: same field of the same base
+					if fa, isFA := pl.X.(*ssa.FieldAddr); isFA {
+						for _, b2 := range fn.Blocks {
+							for _, i2 := range b2.Instrs {
+								l2, isL := i2.(*ssa.UnOp)
+								if !isL || l2.Op != token.MUL || l2 == pl {
+									continue
+								}
+								if fa2, isFA2 := l2.X.(*ssa.FieldAddr); isFA2 && fa2.Field == fa.Field && sameBaseValue(fa2.X, fa.X) && core.DominatedByNil(l2, b, false) {
+									guarded = true
+								}
+							}
+						}
+					}
+				}
+				if guarded {
+					c.Discharge("tmpl.optptr", key, in.Pos(), "dereferenced behind a non-nil test")
+				} else {
+					c.Report("tmpl.optptr", key, in.Pos(), fmt.Sprintf("%s dereferences the optional attribute %s without testing it: a plan (or API answer) that does not carry the attribute makes falco crash instead of generating VCL", core.FnName(fn), name))
+				}
+			}
+		}
+	}
+	c.Floor("tmpl.optptr", 2)
 }
